@@ -385,12 +385,7 @@ func (t *tagPub) Publish(topic string, msgs ...*message.Message) error {
 	return t.inner.Publish(topic, msgs...) // nil interface: panics, as any embedding decorator would
 }
 
-func (t *tagPub) Close() error {
-	if t.inner == nil {
-		return nil
-	}
-	return t.inner.Close()
-}
+func (t *tagPub) Close() error { return t.inner.Close() } // like an embedding decorator: no nil guard
 
 func (r *wRun) pubDecorator(id int, fails int, lib bool) message.PublisherDecorator {
 	var calls int32
@@ -964,9 +959,6 @@ func (g *wGen) newHandler(name string) *wHandler {
 		h.PubKind = 1
 	default:
 		h.PubKind, h.PubTopic = 2, "o1"
-		if g.libPub {
-			h.PubKind, h.PubTopic = 1, ""
-		}
 	}
 	return h
 }
@@ -1255,7 +1247,7 @@ func (g *wGen) registration() {
 			g.op(&wOp{K: "addhmw", Name: hname, ID: g.nextID, App: g.pick(4) == 0, Grp: grp})
 		default:
 			o := &wOp{K: []string{"addpubdec", "addsubdec"}[kind-2], ID: g.nextID, Grp: grp}
-			o.Lib = g.pick(2) == 0 && (kind == 3 || g.libPub)
+			o.Lib = g.pick(2) == 0
 			if g.faulty && g.running && g.pick(2) == 0 {
 				o.Fails = 1 + g.pick(2)
 				g.budget[o.ID] = o.Fails
@@ -1446,7 +1438,7 @@ func genDecorators(rng *rand.Rand, npub, nsub int) *wProgram {
 		}
 		g.nextID++
 		if seq[i] == 0 {
-			g.op(&wOp{K: "addpubdec", ID: g.nextID, Lib: hB.PubKind != 2 && rng.Intn(2) == 0})
+			g.op(&wOp{K: "addpubdec", ID: g.nextID, Lib: rng.Intn(2) == 0})
 		} else {
 			g.op(&wOp{K: "addsubdec", ID: g.nextID, Lib: rng.Intn(2) == 0})
 		}
